@@ -199,9 +199,12 @@ Exec(s, ms, ch) ==
          ELSE LET we == MetaWErr(s)
                   r  == IF we = "ok" THEN MetaPut(s.m, ms.a, s.epoch, FALSE) ELSE [m |-> s.m, res |-> we]
               IN IF r.res = "ok" THEN [s EXCEPT !.m = r.m]
-                 ELSE [s EXCEPT !.res = r.res,
-                                !.wc[ms.a] = IF s.cached /\ WcOn(s) THEN FALSE ELSE @,
-                                !.blob[ms.a] = IF s.blobRO THEN @ ELSE FALSE]
+                 ELSE LET wc2 == IF s.cached /\ WcOn(s) THEN FALSE ELSE s.wc[ms.a]
+                          bl2 == IF s.blobRO THEN s.blob[ms.a] ELSE FALSE
+                      IN [s EXCEPT !.res = r.res, !.wc[ms.a] = wc2, !.blob[ms.a] = bl2,
+                                   \* the rollback deletes "what this put wrote" - also the data an EARLIER put of the same,
+                                   \* still indexed object wrote (re-put rejected as expired / removed)
+                                   !.kf15[ms.a] = IF s.m.stored[ms.a] /\ ~bl2 /\ ~(s.hasWC /\ wc2) THEN "putrollback" ELSE @]
     [] ms.k = "del" ->          \* deleteObjs: mode checks
          IF RO(s.mode) THEN [s EXCEPT !.res = "ro"]
          ELSE IF NoMeta(s.mode) THEN [s EXCEPT !.res = "deg"]
